@@ -17,8 +17,17 @@ Recs == ndJsonDeserialize(IOEnv.TRACE_FILE)
 N == Len(Recs)
 VARIABLE i
 
-StOf(r, j) == [sz |-> r.cfg.sz, limit |-> r.cfg.limit, single |-> r.cfg.single, mode |-> j.mode,
-               tree |-> j.tree, foot |-> j.foot, arch |-> j.arch, disk |-> j.disk,
+\* j.files = every other file in the archive's directory, by name; numbered archive i is the one the
+\* specification names ArchName(fname, i) - nothing else may be there (StrayFiles)
+ArchOf(r, j) == [k \in 1..r.cfg.narch |->
+                    IF ~IsDirName(r.cfg.fname) THEN <<>>
+                    ELSE LET nm == ArchName(r.cfg.fname, k - 1) IN
+                         IF nm \in DOMAIN j.files THEN j.files[nm] ELSE <<>>]
+StrayFiles(r, j) == DOMAIN j.files \ (IF IsDirName(r.cfg.fname)
+                                       THEN {ArchName(r.cfg.fname, k - 1) : k \in 1..r.cfg.narch} ELSE {})
+StOf(r, j) == [sz |-> r.cfg.sz, limit |-> r.cfg.limit, fname |-> r.cfg.fname,
+               single |-> ~IsDirName(r.cfg.fname), mode |-> j.mode,
+               tree |-> j.tree, foot |-> j.foot, arch |-> ArchOf(r, j), disk |-> j.disk,
                want |-> j.want, wantDisk |-> j.wantDisk]
 Bad(c, e) == [ok |-> FALSE, clause |-> c, exp |-> e]
 Good == [ok |-> TRUE, clause |-> "", exp |-> 0]
@@ -79,6 +88,7 @@ StepVerdict(r) ==
         ELSE IF ~SameFn(x.tree, post.tree) THEN Bad("tree", x.tree)
         ELSE IF x.foot # post.foot THEN Bad("foot", x.foot)
         ELSE IF x.arch # post.arch THEN Bad("arch", x.arch)
+        ELSE IF StrayFiles(r, r.post) # {} THEN Bad("files.stray", StrayFiles(r, r.post))
         ELSE IF x.disk.st # post.disk.st THEN Bad("disk.state", x.disk.st)
         ELSE IF ~SameFn(x.disk.tree, post.disk.tree) THEN Bad("disk.tree", x.disk.tree)
         ELSE IF x.disk.foot # post.disk.foot THEN Bad("disk.foot", x.disk.foot)
